@@ -684,9 +684,13 @@ func (c *Ctx) tsStepJob(eng *gosym.Engine, s *corpus.Spec, d *Dump, tsPath strin
 			sq, sid, sx = append(sq, num(q)), append(sid, num(ids[x])), append(sx, num(x))
 			sv, sw = append(sv, st.Fresh("sv", 64)), append(sw, st.Fresh("sw", 64))
 		}
+		gq := 1
+		if slots > n && inRange(st, "gq", 0, 1) == 1 {
+			gq = len(d.States) - 1
+		}
 		for i := n; i < slots; i++ {
-			// stale slots: arbitrary contents
-			sq, sid, sx = append(sq, st.Fresh("gq", 64)), append(sid, st.Fresh("gx", 64)), append(sx, num(-1))
+			// stale slots: all with state 1 or the last state (one choice per run), symbol 2, arbitrary values
+			sq, sid, sx = append(sq, num(gq)), append(sid, num(2)), append(sx, num(-1))
 			sv, sw = append(sv, st.Fresh("gv", 64)), append(sw, st.Fresh("gw", 64))
 		}
 		var idT []*gosym.Term
@@ -720,12 +724,12 @@ func (c *Ctx) tsStepJob(eng *gosym.Engine, s *corpus.Spec, d *Dump, tsPath strin
 			continue
 		}
 		seen[key] = true
-		c.confirmTSStep(prog, s, ids, v, key)
+		c.confirmTSStep(prog, s, ids, len(d.States), v, key)
 	}
 }
 
 // confirmTSStep rebuilds the configuration of a model and calls the same verifStep under node.
-func (c *Ctx) confirmTSStep(prog *tsmini.Program, s *corpus.Spec, ids []int, v gosym.Violation, key string) {
+func (c *Ctx) confirmTSStep(prog *tsmini.Program, s *corpus.Spec, ids []int, nStates int, v gosym.Violation, key string) {
 	dir := c.Scratch()
 	get := func(name string, k int) int64 { return int64(v.Model[fmt.Sprintf("%s!%d", name, k)]) }
 	n, slots := int(get("depth", 0)), int(get("slots", 0))
@@ -740,7 +744,11 @@ func (c *Ctx) confirmTSStep(prog *tsmini.Program, s *corpus.Spec, ids []int, v g
 		fmt.Fprintf(&b, "{ const x=%d; const q=verifAct(cur, ids[x]); cur=q; sq.push(q); sid.push(ids[x]); sx.push(x); sv.push(%d); sw.push(%d); }\n", x, get("sv", i-1), get("sw", i-1))
 	}
 	for i := n; i < slots; i++ {
-		fmt.Fprintf(&b, "sq.push(%d); sid.push(%d); sx.push(-1); sv.push(%d); sw.push(%d);\n", get("gq", i-n), get("gx", i-n), get("gv", i-n), get("gw", i-n))
+		gq := 1
+		if get("gq", 0) == 1 {
+			gq = nStates - 1
+		}
+		fmt.Fprintf(&b, "sq.push(%d); sid.push(2); sx.push(-1); sv.push(%d); sw.push(%d);\n", gq, get("gv", i-n), get("gw", i-n))
 	}
 	b.WriteString("let r; const ce=console.error; console.error=function(){};\n")
 	fmt.Fprintf(&b, "try { r = verifStep(%d, sq, sid, sx, sv, sw, ids, %d, %d) } catch(e) { r = 'crash: '+e }\n", n, get("c", 0), get("v", 0))
